@@ -37,7 +37,9 @@ def snapshot(w, extra=()):
     for ob in objs:
         d = vars(ob)
         attrs.append([[name, hashlib.sha1(digest(d[name]).encode()).hexdigest()[:10]] for name in sorted(d)
-                      if not name.endswith("__qa_nb_cache")])
+                      # a private memo table (a dict under an underscore name, whatever it is called) is not part of
+                      # the observable graph: neighbors() legitimately fills one
+                      if not (name.startswith("_") and isinstance(d[name], dict))])
     S = w.project()
     S["extra"] = [[w.n_obj(v) for v in x.vertices] if isinstance(x, Universe) else
                   ([w.n_obj(v) for v in x.vertices] if hasattr(x, "vertices") else [])
